@@ -81,7 +81,9 @@ func questionsOf(p *core.Program, f *ssa.Function, seen map[*ssa.Function]bool, 
 
 func runC09(c *Ctx) {
 	p, r := c.P, c.R
+	defer checkPeerSourceNotAuthorizedLocally(c)
 	r.Clauses = []string{
+		"C09.8 the authorizer is asked about an intention's SOURCE name only for local sources (below SourcePeer == \"\"): the name of a service in a peer cluster says nothing about the like-named local service the token may read",
 		"C09.1 every value handed to the ACL filter has a case in the filter's type switch (the default case panics)",
 		"C09.2 every RPC method whose reply is a filterable type calls the filter on its reply (directly, in its blocking-query closure, or in the helper it forwards the reply to), or is one of the listed up-front-authorised/forwarding methods",
 		"C09.3 every per-type filter asks, for the element type it filters, the authorizer questions frozen in rules/c09_filter_questions.json, on a name field of the element (not a container key), and siblings filtering the same element type agree",
@@ -859,5 +861,59 @@ func checkFilterDoesNotWriteRows(c *Ctx) {
 	}
 	if len(rows) < 30 {
 		r.MissingInstance("C09.7", "<row-types>", fmt.Sprintf("only %d row types found", len(rows)))
+	}
+}
+
+
+// C09.8: an authorizer question whose subject is the SourceName of an intention lies below the
+// SourcePeer == "" edge, in every function of agent/structs and the ACL filter.
+func checkPeerSourceNotAuthorizedLocally(c *Ctx) {
+	p, r := c.P, c.R
+	n := 0
+	for _, rel := range []string{"agent/structs", aclfilterPkg} {
+		for _, f := range p.SrcFuncs(rel) {
+			for _, in := range callsTo(f, func(cm *ssa.CallCommon) bool {
+				if !cm.IsInvoke() {
+					return false
+				}
+				nt := core.NamedOf(cm.Value.Type())
+				return nt != nil && nt.Obj().Name() == "Authorizer"
+			}) {
+				args := in.(ssa.CallInstruction).Common().Args
+				subjectIsSource := false
+				for _, a := range args {
+					if bt, ok := a.Type().Underlying().(*types.Basic); !ok || bt.Kind() != types.String {
+						continue
+					}
+					if core.AccessOf(a).LastField() == "SourceName" {
+						subjectIsSource = true
+					}
+				}
+				if !subjectIsSource {
+					continue
+				}
+				n++
+				construct := core.FuncName(f) + "/" + core.MethodNameOf(in.(ssa.CallInstruction).Common()) + "(SourceName)"
+				local := core.GuardEdges(f, 2, func(cv core.CmpView) (bool, bool) {
+					if cv.Op != token.EQL && cv.Op != token.NEQ {
+						return false, false
+					}
+					for _, pair := range [][2]ssa.Value{{cv.X, cv.Y}, {cv.Y, cv.X}} {
+						if k, ok := core.ConstString(pair[0]); ok && k == "" && core.AccessOf(pair[1]).LastField() == "SourcePeer" {
+							return cv.Op == token.EQL, cv.Op == token.NEQ
+						}
+					}
+					return false, false
+				})
+				if len(local) > 0 && core.CutMakesUnreachable(f, nil, local, in) {
+					r.Hold("C09.8", construct, p.Pos(in.Pos()), "asked only below SourcePeer == \"\"")
+				} else {
+					r.Violate("C09.8", construct, p.Pos(in.Pos()), "the authorizer is asked about the source name of an intention whose source may live in a peer cluster: a token that can read the like-named LOCAL service is shown an intention it has no right to see (and ResultsFilteredByACLs stays unset)")
+				}
+			}
+		}
+	}
+	if n == 0 {
+		r.MissingInstance("C09.8", "<source-name questions>", "no authorizer question about an intention's SourceName found in agent/structs")
 	}
 }
